@@ -1,4 +1,5 @@
 """C01 — grouped aggregation reports the true per-group statistics."""
+import json
 import aglib
 import gen
 import qast
@@ -126,4 +127,17 @@ def explore(ctx):
     failures += live['failures']
     cov['live_terminal_cases'] = live['coverage']['evaluations']
     cov['evaluations'] += live['coverage']['evaluations']
+    # "over the values that are numeric": a date is not a number for sum / min / max / avg (it is for num(), which is
+    # a conversion one asks for) - groups whose argument is a date report 0 / None / None / None
+    dl = [json.dumps({'k': k_, 'ts': t_}) + '\n' for k_, t_ in (('a', '2021-03-01T10:00:00Z'), ('a', '2021-03-01T11:00:00Z'), ('b', '1970-01-01T00:00:01Z'))]
+    dq = '* | json | parseDate(ts) as d | count, sum(d) as s, min(d) as lo, max(d) as hi, avg(d) as av by k'
+    do = aglib.run_impl_one(dq, ''.join(dl).encode('utf8'), 'json')
+    try:
+        drows = sorted((r['k'], r['_count'], r['s'], r['lo'], r['hi'], r['av']) for r in json.loads(do['out'].decode('utf8')))
+    except (ValueError, KeyError, TypeError):
+        drows = None
+    cov['evaluations'] += 1
+    if do['rc'] != 0 or drows != [('a', 2, 0, None, None, None), ('b', 1, 0, None, None, None)]:
+        failures.append({'kind': 'spec', 'what': 'aggregates over a DATE argument: %r, expected count 2/1, sum 0, min/max/avg None (a date is not a numeric value)' % (drows,),
+                         'payload': {'query': dq, 'input_lines': dl, 'mode': 'json'}})
     return {'coverage': cov, 'failures': failures}
